@@ -4,5 +4,6 @@ CONSTANTS
   MaxDecorated = 2
   NTexts = 12
   Export = TRUE
+  Inner = TRUE
 INVARIANT Inv
 CHECK_DEADLOCK FALSE
